@@ -125,7 +125,9 @@ func (s shapeRec) runKey() string {
 
 var reKey = regexp.MustCompile(`[^a-z0-9]+`)
 
-func shapeKey(id string) string { return "s_" + reKey.ReplaceAllString(strings.ToLower(id), "_") }
+// shapeKey: directory / package name of a run.  The trailing _x keeps Go from reading a numeric or OS-like
+// last word as a build constraint (a file s_..._386.pb.go is only compiled for GOARCH=386).
+func shapeKey(id string) string { return "s_" + reKey.ReplaceAllString(strings.ToLower(id), "_") + "_x" }
 
 // driverStep converts a spec history step into a driver step.
 func driverStep(st map[string]interface{}) map[string]interface{} {
